@@ -23,7 +23,8 @@ RULE = ("Histories over server.method.ProofState starting from library theorems 
         "line is the original sequent; ids equal positions at every depth and every citation names an earlier visible "
         "line; with no gap left check_proof(no_gaps=True) accepts; export_proof -> parse_proof gives the same lines "
         "(rule, citations, sequent, printed arguments) and the same check result; fingerprints of all earlier copies are "
-        "unchanged. Non-trivial: >= 3 completed ops including one that spliced more than one line; distinct by op list.")
+        "unchanged. A small corpus of hand-written walks (corpus/C13) is run and mutated (index changes, dropped / "
+        "duplicated / swapped / inserted ops) in addition. Non-trivial: >= 3 completed ops including one that spliced more than one line; distinct by op list.")
 ASSUMPTIONS = [
     "recorded steps of the library theorems drive most walks; a fixed list of generated propositional / quantifier goals in theory logic is walked with suggestions and perturbations only",
     "an op that raises is outside the property (it speaks of operations that complete); its state is discarded",
@@ -245,14 +246,15 @@ def check_invariants(state, goal_key, item, H, case, last_method):
                         'unicode=%s %r  vs  %r' % (uni, diff[0], diff[1]))
             return False
         if edit_lib.thm_key(res2) != goal_key or gaps2 != got:
-            H.violation('edit:reimport-check-differs:%s' % sig_m, case, '')
+            H.violation(('edit:reimport:%s' % shadow) if shadow else 'edit:reimport-check-differs:%s' % sig_m, case,
+                        're-imported proof proves %s with gaps %s' % (res2, gaps2))
             return False
     return True
 
 
 # ------------------------------------------------------------------ ops
 PERT = ['other_gap', 'other_facts', 'repeat', 'cut', 'cases', 'intro_names', 'forall_elim', 'inst_exists', 'revert_intro',
-        'new_var', 'cut_sub']
+        'new_var', 'cut_sub', 'cut_concl', 'forward_at']
 
 
 def _subprops(t, out, depth=0):
@@ -335,6 +337,50 @@ def build_step(state, op, item, cursor, last_step):
                 text = printer.print_term(t)
                 return ({'method_name': 'cut', 'goal_id': gid, 'fact_ids': [], 'goal': text} if pk == 'cut' else
                         {'method_name': 'cases', 'goal_id': gid, 'fact_ids': [], 'case': text}), False
+            if pk == 'forward_at':
+                # a forward step (it only adds a fact, so it is legal at any gap that sees the fact) found as a
+                # suggestion for one gap and applied at another one: search_method hides forward steps at a gap
+                # they would close, a user choosing the method by hand is not so restricted
+                if not facts:
+                    return None
+                f = facts[j % len(facts)]
+                fwd = None
+                for gp2, _ in gaps:
+                    if not edit_lib.visible(gp2, f):
+                        continue
+                    res = state.search_method(edit_lib.id_str(gp2), [edit_lib.id_str(f)])
+                    res = [r for r in res if r['method_name'] in ('apply_forward_step', 'rewrite_fact', 'apply_fact')]
+                    if res:
+                        fwd = res[k % len(res)]
+                        break
+                if fwd is None:
+                    return None
+                step = {kk: v for kk, v in fwd.items() if not kk.startswith('_') and kk != 'display'}
+                step['goal_id'] = gid
+                step['fact_ids'] = [edit_lib.id_str(f)]
+                return step, False
+            if pk == 'cut_concl':
+                # "first prove the conclusion, then use it": cut X on a gap Y --> X (or A & (Y --> X), !y. X with y not in X)
+                t = gitem.th.prop
+                cands = []
+
+                def concl(u, depth=0):
+                    if depth > 3:
+                        return
+                    if u.is_implies():
+                        cands.append(u.arg)
+                        concl(u.arg, depth + 1)
+                    elif u.is_conj() or u.is_disj():
+                        concl(u.arg1, depth + 1)
+                        concl(u.arg, depth + 1)
+                    elif u.is_forall() and not u.arg.body.is_open():
+                        cands.append(u.arg.body)
+                        concl(u.arg.body, depth + 1)
+                concl(t)
+                cands = [c for c in cands if not c.is_open()]
+                if not cands:
+                    return None
+                return {'method_name': 'cut', 'goal_id': gid, 'fact_ids': [], 'goal': printer.print_term(cands[j % len(cands)])}, False
             if pk == 'cut_sub':
                 subs = []
                 for p in facts:
@@ -533,7 +579,6 @@ def case_strategy(corpus):
     from hypothesis import strategies as st
     pool = [(th, nm) for th in sorted(corpus) for nm in corpus[th]]
     # generated goals (no recorded steps: walks consist of suggestions and perturbations only)
-    pool = pool + [('#goal', str(k)) for k in range(len(edit_lib.GOALS))] * 4
     small = st.integers(0, 7)
     op = st.one_of(
         st.tuples(st.just('next'), st.booleans()).map(list),
@@ -543,13 +588,79 @@ def case_strategy(corpus):
         st.tuples(st.just('sugg'), small, st.lists(small, max_size=2), small, st.booleans()).map(list),
         st.tuples(st.just('pert'), st.sampled_from(PERT), small, small, small, st.booleans()).map(list),
     )
-    return st.tuples(st.sampled_from(pool), st.lists(op, min_size=3, max_size=14)).map(
+    lib = st.tuples(st.sampled_from(pool), st.lists(op, min_size=3, max_size=14)).map(
         lambda p: {'theory': p[0][0], 'thm': p[0][1], 'ops': p[1]})
+    # generated goals have no recorded steps: walks of suggestions and perturbations with small indices, so that each
+    # short path of a goal (cut of a sub-formula, a block whose inner goal is that cut, a forward step closing it ...)
+    # has a fair chance
+    tiny = st.integers(0, 3)
+    gop = st.one_of(
+        st.tuples(st.just('sugg'), tiny, st.one_of(st.just([]), st.lists(tiny, min_size=1, max_size=2)), st.integers(0, 5),
+                  st.booleans()).map(list),
+        st.tuples(st.just('sugg'), tiny, st.one_of(st.just([]), st.lists(tiny, min_size=1, max_size=2)), st.integers(0, 5),
+                  st.booleans()).map(list),
+        st.tuples(st.just('pert'), st.sampled_from(['cut_sub', 'cut_sub', 'cut_concl', 'cut_concl', 'forward_at', 'forward_at', 'cut',
+                                                    'cases', 'intro_names', 'revert_intro', 'new_var', 'forall_elim', 'inst_exists']),
+                  tiny, small, small, st.booleans()).map(list))
+    goal = st.tuples(st.integers(0, len(edit_lib.GOALS) - 1), st.lists(gop, min_size=3, max_size=8)).map(
+        lambda p: {'theory': '#goal', 'thm': str(p[0]), 'ops': p[1]})
+    return st.one_of(lib, lib, goal)
+
+
+def corpus_cases():
+    """Hand-written walks of interesting shape (corpus/C13/*.json): starting points for mutation."""
+    import glob
+    import os
+    out = []
+    for f in sorted(glob.glob(os.path.join(os.path.dirname(os.path.dirname(os.path.abspath(__file__))), 'corpus', 'C13', '*.json'))):
+        with open(f) as fh:
+            out.append(json.load(fh))
+    return out
+
+
+def mutation_strategy(seeds):
+    """A corpus walk with up to two local mutations: an index changed, an op dropped, duplicated, swapped with its
+    neighbour, the live flag flipped, a random goal-walk op inserted."""
+    from hypothesis import strategies as st
+    tiny = st.integers(0, 3)
+    fresh = st.one_of(
+        st.tuples(st.just('sugg'), tiny, st.one_of(st.just([]), st.lists(tiny, min_size=1, max_size=2)), st.integers(0, 5),
+                  st.booleans()).map(list),
+        st.tuples(st.just('pert'), st.sampled_from(PERT), tiny, tiny, tiny, st.booleans()).map(list))
+
+    @st.composite
+    def cases(draw):
+        base = draw(st.sampled_from(seeds))
+        ops = json.loads(json.dumps(base['ops']))
+        for _ in range(draw(st.integers(0, 2))):
+            if not ops:
+                break
+            i = draw(st.integers(0, len(ops) - 1))
+            kind = draw(st.sampled_from(['index', 'index', 'drop', 'dup', 'swap', 'live', 'insert']))
+            if kind == 'index':
+                slots = [k for k, v in enumerate(ops[i]) if isinstance(v, int) and not isinstance(v, bool)]
+                if slots:
+                    ops[i][draw(st.sampled_from(slots))] = draw(st.integers(0, 4))
+            elif kind == 'drop' and len(ops) > 1:
+                del ops[i]
+            elif kind == 'dup':
+                ops.insert(i, json.loads(json.dumps(ops[i])))
+            elif kind == 'swap' and i + 1 < len(ops):
+                ops[i], ops[i + 1] = ops[i + 1], ops[i]
+            elif kind == 'live':
+                ops[i][-1] = not ops[i][-1]
+            elif kind == 'insert':
+                ops.insert(i, draw(fresh))
+        goal = base['thm'] if draw(st.integers(0, 3)) else str(draw(st.integers(0, len(edit_lib.GOALS) - 1)))
+        return {'theory': base['theory'], 'thm': goal if base['theory'] == '#goal' else base['thm'], 'ops': ops}
+    return cases()
 
 
 def shards(tier):
     n, k = (640, 32) if tier == 'quick' else (24000, 96)
-    return [{'n': c, 'i': i} for i, c in enumerate(harness.split(n, k))]
+    m, km = (96, 4) if tier == 'quick' else (4000, 16)
+    return [{'n': c, 'i': i} for i, c in enumerate(harness.split(n, k))] + \
+           [{'kind': 'corpus', 'n': c, 'i': i} for i, c in enumerate(harness.split(m, km))]
 
 
 def run_shard(desc, seed, tier, H):
@@ -560,4 +671,13 @@ def run_shard(desc, seed, tier, H):
             run_case(case, H)
         except CaseInvalid:
             H.note('case-invalid')
+    if desc.get('kind') == 'corpus':
+        seeds = corpus_cases()
+        if not seeds:
+            return
+        if desc['i'] == 0:
+            for c in seeds:
+                body(c)
+        harness.hyp_run(mutation_strategy(seeds), body, desc['n'], seed)
+        return
     harness.hyp_run(case_strategy(corpus), body, desc['n'], seed)
